@@ -292,3 +292,14 @@ for _pid in ("C02", "C03", "C11", "C16", "C20"):
     PROPS[_pid]["rule"] += " lcfg2 (schedules): two overlapping SetConfigThreadSafe calls on one built-in closer / opener / SLO tracker; once both returned, what Config() reports must be what the object enforces (sleep window, probe budget, required successes, volume threshold, healthy time)."
     if TB_SCHED[0] not in PROPS[_pid]["trusted_base"]:
         PROPS[_pid]["trusted_base"] = PROPS[_pid]["trusted_base"] + TB_SCHED
+
+
+# ---- tie units: the regenerated translations (tools/extract/gotrans) each property's tie theorems depend on (tools/mkties.py)
+import importlib.util as _ilu
+_spec = _ilu.spec_from_file_location("mkties", os.path.join(os.path.dirname(os.path.abspath(__file__)), "..", "tools", "mkties.py"))
+_mk = _ilu.module_from_spec(_spec); _spec.loader.exec_module(_mk)
+TIED = ["C02", "C03", "C09", "C16", "C20"]
+for _pid in TIED:
+    PROPS[_pid]["generated"] = list(PROPS[_pid].get("generated", [])) + _mk.units_of(_pid)
+    PROPS[_pid]["rule"] += (" TIE BY REGENERATION: the bodies of the Go functions this property is about are translated on every run (gotrans: %s) into "
+                            "do-notation over a Go-semantics monad and PROVED equal to the model's functions (tie_* theorems)." % ", ".join(_mk.units_of(_pid)))
